@@ -21,7 +21,9 @@ static sqfs_u32 strhash(const char *s)
 	sqfs_u32 a = 0;
 
 	while (*str != '\0') {
-		a += *str << 4;
+		/* shift the sign extended value as unsigned: left shifting
+		   a negative int is undefined */
+		a += (sqfs_u32)*str << 4;
 		a += *str >> 4;
 		a *= 11;
 		str++;
